@@ -47,7 +47,66 @@ async fn main() {
             if reported.insert(class.clone()) { rp_core::report(true, &class, json!({"message": case}), json!({"panic": m}), &obl); }
         }
     }
+    // ---- duplicate delivery while not yet welcomed: bob buffers an application message of a space he is not a member of
+    // yet k times (k = 1, 2, 3), then gets welcomed. The welcome must not panic, and the buffered message is delivered to the
+    // application at most once however often it was processed.
+    for k in 1..=3usize {
+        n += 1;
+        let alice = TestPeer::new(0).await;
+        let bob = TestPeer::new(1).await;
+        alice.manager.register_member(&bob.manager.me().await.unwrap()).await.unwrap();
+        bob.manager.register_member(&alice.manager.me().await.unwrap()).await.unwrap();
+        let space_id = SpaceId::digest(b"dup");
+        let (space, messages) = alice.manager.create_space_persisted(space_id, &[]).await.unwrap();
+        for m in &messages { bob.persist_operation(m).await.unwrap(); bob.manager.process_persisted(m).await.unwrap(); }
+        let application = space.publish_persisted(b"hello").await.unwrap();
+        let (auth_add, space_add) = space.add_persisted(bob.manager.id(), p2panda_auth::Access::read()).await.unwrap();
+        bob.persist_operation(&application).await.unwrap();
+        let mut early = 0usize;
+        for _ in 0..k { if let Ok(ev) = bob.manager.process_persisted(&application).await { early += ev.len(); } }
+        bob.persist_operation(&auth_add).await.unwrap();
+        let _ = bob.manager.process_persisted(&auth_add).await;
+        bob.persist_operation(&space_add).await.unwrap();
+        let r = AssertUnwindSafe(bob.manager.process_persisted(&space_add)).catch_unwind().await;
+        let inp = json!({"sequence": ["space created (bob not a member)", format!("application message processed {k} time(s) by bob"), "auth add of bob", "space membership message welcoming bob"]});
+        match r {
+            Err(p) => {
+                let m = p.downcast_ref::<String>().cloned().or(p.downcast_ref::<&str>().map(|s| s.to_string())).unwrap_or_default();
+                if reported.insert("welcome-panics-after-duplicate-buffered-message".to_string()) {
+                    rp_core::report(true, "welcome-panics-after-duplicate-buffered-message", inp, json!({"panic": m}), &["enc_orderer::Ordering@EncryptionOrderer::next_ready_message.ensures#wf_kept_for_any_queue_even_with_repeated_ids", "enc_orderer::Ordering@EncryptionOrderer::next_ready_message.safety", "enc_orderer::Ordering@EncryptionOrderer::next_ready_message.ensures#stored_messages_kept", "enc_orderer::Ordering@EncryptionOrderer::queue.ensures#wf"]);
+                }
+            }
+            Ok(res) => {
+                let apps = res.as_ref().map(|ev| ev.iter().filter(|e| matches!(e, p2panda_spaces::Event::Application { .. })).count()).unwrap_or(0);
+                if early + apps > 1 && reported.insert("buffered-application-message-delivered-more-than-once".to_string()) {
+                    rp_core::report(true, "buffered-application-message-delivered-more-than-once", inp, json!({"application_events_at_welcome": apps, "application_events_before": early, "result_ok": res.is_ok()}), &["idempotence (not under contract)"]);
+                }
+            }
+        }
+    }
+    // ---- a member of the space processes the same application message twice (duplicate delivery)
+    {
+        n += 1;
+        let alice = TestPeer::new(0).await;
+        let bob = TestPeer::new(1).await;
+        alice.manager.register_member(&bob.manager.me().await.unwrap()).await.unwrap();
+        bob.manager.register_member(&alice.manager.me().await.unwrap()).await.unwrap();
+        let space_id = SpaceId::digest(b"dup2");
+        let (space, messages) = alice.manager.create_space_persisted(space_id, &[(bob.manager.id(), p2panda_auth::Access::read())]).await.unwrap();
+        for m in &messages { bob.persist_operation(m).await.unwrap(); bob.manager.process_persisted(m).await.unwrap(); }
+        let application = space.publish_persisted(b"hello").await.unwrap();
+        bob.persist_operation(&application).await.unwrap();
+        let mut per_call = vec![];
+        for _ in 0..3 {
+            let r = AssertUnwindSafe(bob.manager.process_persisted(&application)).catch_unwind().await;
+            per_call.push(match r { Err(_) => "panic".to_string(), Ok(Err(e)) => format!("error: {e}").chars().take(80).collect(), Ok(Ok(ev)) => format!("{} event(s)", ev.len()) });
+        }
+        let again = per_call[1..].iter().any(|c| c != "0 event(s)" && !c.starts_with("error"));
+        if again && reported.insert("application-message-processed-again-emits-events-again".to_string()) {
+            rp_core::report(true, "application-message-processed-again-emits-events-again", json!({"sequence": ["space created with bob as reader", "bob processes one application message 3 times"]}), json!({"per_call": per_call}), &["idempotence (not under contract)"]);
+        }
+    }
     println!("{}", json!({"summary": true, "evaluations": n, "distinct_nontrivial": n, "exhaustive": false,
-        "rule": "Manager::process under catch_unwind on 5 remotely chosen well-typed messages (SpaceUpdate; membership pointers at key-bundle / unknown / space-update messages; application for an unknown space)",
-        "bound": "5 messages", "violating_classes": reported}));
+        "rule": "Manager::process under catch_unwind on 5 remotely chosen well-typed messages + an application message buffered 1..3 times before the welcome; (SpaceUpdate; membership pointers at key-bundle / unknown / space-update messages; application for an unknown space)",
+        "bound": "8 scenarios", "violating_classes": reported}));
 }
